@@ -84,6 +84,39 @@ Proof.
     [apply ones_length | apply zeros_length | apply ones_pos].
 Qed.
 
+(* the validated perturbation magnitude of a variable, in the user's own units: an absolute magnitude m is stored
+   as m / s, a relative one is taken from the transformed bounds, and both are m_user / s with
+   m_user = m (absolute) or (upper - lower) * m (relative) -- whatever the scale and offset of that variable *)
+Theorem C11_magnitude_user_units : forall s o l u pt m mh, 0 < s ->
+  fix_magnitude s (Tb s o l) (Tb s o u) pt m = Some mh ->
+  exists me, eff_mag l u pt m = Some me /\ mh == me / s.
+Proof. exact fix_magnitude_eff. Qed.
+
+(* every component of every perturbed row the evaluator receives, stated directly in user units: the boundary
+   handling applied to x_i + m_user,i * z_i with the user's own bounds -- no scale or offset appears *)
+Theorem C11_request_component : forall rep n ss os u m x z i a,
+  ucfg_sized n u -> length ss = n -> length os = n -> positive ss -> validate_vars ss os u = Some m ->
+  nth_error (from_opt ss os (perturb rep m (to_opt ss os x) z)) i = Some a ->
+  exists xi zi l ub t mg p me,
+    nth_error x i = Some xi /\ nth_error z i = Some zi /\ nth_error (u_lb u) i = Some l /\
+    nth_error (u_ub u) i = Some ub /\ nth_error (u_bt u) i = Some t /\ nth_error (u_mag u) i = Some mg /\
+    nth_error (u_pt u) i = Some p /\ eff_mag l ub p mg = Some me /\
+    a == apply_bounds_1 rep t l ub (xi + me * zi).
+Proof. exact request_component. Qed.
+
+(* function requests for a batch of points (2-D variables, parallel optimizers, evaluator steps given several
+   vectors): the evaluator receives every user-domain point R times, in order, whatever the scaler *)
+Theorem C11_batch_requests_user : forall R ss os xs,
+  Forall (fun x => length ss = length x /\ length os = length x) xs -> positive ss ->
+  meq (batch_requests R ss os (map (to_opt ss os) xs)) (batch_rows R xs).
+Proof. exact batch_requests_user. Qed.
+
+Theorem C11_batch_requests_invariant : forall R n ss1 os1 ss2 os2 xs,
+  Forall (fun x => length x = n) xs ->
+  length ss1 = n -> length os1 = n -> positive ss1 -> length ss2 = n -> length os2 = n -> positive ss2 ->
+  meq (batch_requests R ss1 os1 (map (to_opt ss1 os1) xs)) (batch_requests R ss2 os2 (map (to_opt ss2 os2) xs)).
+Proof. exact batch_requests_invariant. Qed.
+
 (* user-domain results: per-realization values (diagonal scale round trip) ... *)
 Theorem C11_values_invariant : forall sc f, length sc = length f -> nonzero sc ->
   veq (fun_from_opt sc (fun_to_opt sc f)) f.
@@ -137,6 +170,10 @@ Print Assumptions C11_feasible_iff.
 Print Assumptions C11_apply_bounds_equivariant.
 Print Assumptions C11_requests_invariant.
 Print Assumptions C11_requests_equal_untransformed.
+Print Assumptions C11_magnitude_user_units.
+Print Assumptions C11_request_component.
+Print Assumptions C11_batch_requests_user.
+Print Assumptions C11_batch_requests_invariant.
 Print Assumptions C11_values_invariant.
 Print Assumptions C11_function_values_invariant.
 Print Assumptions C11_weighted_mean_homogeneous.
